@@ -30,6 +30,10 @@ EXTRA_SOURCES = [
     "with a as b, c as d: pass\nmatch v:\n    case [1, *r] | {'k': w}: pass\n",
     "\u00e9 = f(\u00e9, *a, k=v)[1:2, ::3]\nif \u00e9: \u00e9 += 1\nelse: del \u00e9\n",
     "def g(): \n  try: pass\n  except (A, B) as e: raise X from e\n  finally: return\n",
+    # children whose syntax order is not field order (the offset walk's early `break`s rely on syntax order)
+    "r = f(k=1, *a, j=2, **kw)\nclass K(A, m=M, *B): pass\n"
+    "def h(p=0, /, q=1, *, s=2, t=3): return {p: q, **s, t: 4}\n"
+    "match v:\n    case {'k': w, 'j': u, **z}: pass\n",
 ]
 
 REPL_LINES = ['', '\n', '# c\n', '\n\n', '    # c\n', '\n# é\n']
